@@ -140,6 +140,10 @@ def apply_fault(recs, fault):
     elif kind == 'F5':          # several independent losses
         for k, ln in fault[1]:
             lost.update(atoms[k:k + ln])
+    elif kind == 'F6':          # lost run of whole residues (records a..b-1)
+        lost = set(atoms[fault[1]:fault[2]])
+    elif kind == 'F7':          # only a window of whole residues survives
+        lost = set(atoms[:fault[1]]) | set(atoms[fault[2]:])
     elif kind == 'F0':
         lost = set()
     else:
@@ -151,9 +155,38 @@ def render(recs, keep):
     return ''.join(recs[i][1] + '\n' for i in keep)
 
 
-def enumerate_faults(natoms, tier, rng):
+def residue_bounds(recs):
+    """Positions (in atom-record numbering) where a new residue starts, plus
+    the end."""
+    bounds = []
+    last = None
+    n = 0
+    for is_atom, line in recs:
+        if not is_atom:
+            last = None      # a TER/MODEL line also separates residues
+            continue
+        key = (line[0:6], line[17:27])
+        if key != last:
+            bounds.append(n)
+            last = key
+        n += 1
+    bounds.append(n)
+    return bounds
+
+
+def enumerate_faults(natoms, tier, rng, bounds=None):
     """All fault descriptors for a file with natoms records."""
     out = []
+    if bounds:
+        runs = [('F6', bounds[i], bounds[j]) for i in range(len(bounds))
+                for j in range(i + 1, len(bounds)) if bounds[j] - bounds[i] < natoms]
+        wins = [('F7', bounds[i], bounds[j]) for i in range(len(bounds))
+                for j in range(i + 1, len(bounds)) if bounds[j] - bounds[i] < natoms]
+        if tier['f6'] == 'all':
+            out += runs + wins
+        else:
+            out += rng.sample(runs, min(len(runs), tier['f6']))
+            out += rng.sample(wins, min(len(wins), tier['f6']))
     for k in range(natoms):
         out.append(('F1', k))
     for k in range(natoms):
